@@ -323,6 +323,11 @@ def _known_witness():
 KNOWN['asp-pads-never-crops'] = {'witness': _known_witness}
 
 
+def _sc(v):
+    """a scalar that may have been handed over as a 0-d / one-element ndarray -> Python float (for messages)"""
+    return float(np.asarray(v).ravel()[0])
+
+
 def pred_asp(c, verbose=False):
     """free space.  extras['known'] counts literal checks skipped because they are exactly the known finding"""
     ft, pr, config = _impl()
@@ -366,10 +371,25 @@ def pred_asp(c, verbose=False):
             s = pr.angular_spectrum(g, wvl, dx, z + z2, Q=1)
             az = pr.angular_spectrum(g, wvl, dx, z, Q=1)
             # the precomputed-transfer-function branch ("clobbers all other arguments": give it nonsense for them)
+            # ... and the SAME precomputed transfer-function object serves several propagations (that is what it is precomputed
+            # for): it must come back unchanged from every use, and a second use must repeat the first
+            tf_before = tf.copy()
+            g_before = g.copy()
             btf = pr.angular_spectrum(g, wvl * 3, dx * 7, -z - 1.0, Q=5, tf=tf)
+            if not np.array_equal(tf, tf_before):
+                return False, ('angular_spectrum(field, ..., tf=tf) modified the caller\'s precomputed transfer function in place '
+                               f'(max change {float(np.abs(tf - tf_before).max()):.3g}): the next propagation with it is wrong'), {}
+            btf2 = pr.angular_spectrum(g, wvl, dx, z, Q=1, tf=tf)
+            if not np.array_equal(btf, btf2) or not np.array_equal(g, g_before):
+                return False, ('a second angular_spectrum(field, tf=tf) with the same field and transfer-function objects differs '
+                               'from the first, or the field was modified in place'), {}
             w0 = pr.Wavefront(np.asarray(f, dtype=complex), wvl, dx)
             wq = w0.free_space(dz=z, Q=Qn)
             wt = pr.Wavefront(np.asarray(g, dtype=complex), wvl, dx).free_space(tf=tf)
+            wt2 = pr.Wavefront(np.asarray(g, dtype=complex), wvl, dx).free_space(tf=tf)
+            if not np.array_equal(tf, tf_before) or not np.array_equal(wt.data, wt2.data):
+                return False, ('Wavefront.free_space(tf=tf) modified the caller\'s precomputed transfer function in place, or a second '
+                               'propagation with the same transfer-function object differs from the first'), {}
             # a chain of Wavefront.free_space calls: +z then -z comes back (the Wavefront carries the caller's wvl / dx objects)
             wg = pr.Wavefront(np.asarray(g, dtype=complex), wvl, dx)
             wchain = wg.free_space(dz=z, Q=1).free_space(dz=-z, Q=1)
@@ -388,14 +408,14 @@ def pred_asp(c, verbose=False):
         # two evaluations of the exponent that associate differently (z1 + z2 vs z1, z2) differ by a few eps * phase
         at_add = max(at, 16 * eps * phase)
         if verbose:
-            print(f'  dx / lambda = {dx / (wvl / 1e3):.3g}; max phase on the band {phase:.3g} rad; max ||tf|-1| = {um:.3g} '
+            print(f'  dx / lambda = {_sc(dx) / (_sc(wvl) / 1e3):.3g}; max phase on the band {phase:.3g} rad; max ||tf|-1| = {um:.3g} '
                   f'(min |tf| = {float(np.abs(tf).min()):.3g}); energy ratio - 1 = {energy(a) / energy(f) - 1:.3g}; '
                   f'A_0 f has shape {a0.shape} (f: {f.shape}); max |A_-z A_z g - g| = {float(np.abs(b - g).max()):.3g}; '
                   f'max |A_z A_z2 g - A_(z+z2) g| = {float(np.abs(s12 - s).max()):.3g}; '
                   f'max |A(tf=tf) g - A_z g| = {float(np.abs(btf - az).max()):.3g}')
         if not (um <= (1e-6 if et == ETOL32 else 1e-12)):
             return False, (f'transfer function is not unit modulus: max ||H|-1| = {um:.3g}, min |H| = {float(np.abs(tf).min()):.3g} '
-                           f'(dx = {dx / (wvl / 1e3):.3g} wavelengths)'), {}
+                           f'(dx = {_sc(dx) / (_sc(wvl) / 1e3):.3g} wavelengths)'), {}
         ok, rel = eclose(energy(a), energy(f), et)
         if not ok:
             return False, f'free-space propagation changes the energy by a factor {energy(a) / energy(f):.12g}', {}
